@@ -335,6 +335,56 @@ fn explore_scripts(ast: &Ast, vars: &[(&'static str, RV)], ci: usize, bound: usi
     go(ast, &tree, &src, vars, ci, &BTreeMap::new(), 0, bound, st);
 }
 
+/// Long programs: n recording calls in a chain, a tuple, a sum and nested call arguments, with a
+/// failing call at position k; interleaved assignments.
+fn scaling(thorough: bool) -> Stats {
+    use super::scale::{climb, int, sizes};
+    use crate::refmodel::ops::BinOp;
+    super::on_big_stack(move || {
+        let mut st = Stats::new();
+        let ctxs = progs::initial_contexts();
+        for n in sizes(thorough) {
+            let positions: Vec<Option<usize>> = if n <= 20 {
+                std::iter::once(None).chain((0..n).map(Some)).collect()
+            } else {
+                vec![None, Some(0), Some(n / 2), Some(n - 1)]
+            };
+            for fail_at in positions {
+                let call = |i: usize| -> Ast {
+                    let f = if Some(i) == fail_at { "typeof" } else if i % 2 == 0 { "r" } else { "s" };
+                    Ast::Call(f.into(), Box::new(int(i as i64)))
+                };
+                let elems: Vec<Ast> = (0..n).map(call).collect();
+                let mut programs: Vec<Ast> = Vec::new();
+                if n >= 2 {
+                    programs.push(Ast::Chain(elems.clone()));
+                    programs.push(Ast::Tuple(elems.clone()));
+                    programs.push(climb(&elems, &vec![BinOp::Add; n - 1]));
+                    // assignments interleaved: x = r(0); x += s(1); ...
+                    let mut asg: Vec<Ast> = vec![Ast::Asg(None, "x".into(), Box::new(call(0)))];
+                    for i in 1..n {
+                        asg.push(Ast::Asg(Some(BinOp::Add), "x".into(), Box::new(call(i))));
+                    }
+                    asg.push(Ast::Var("x".into()));
+                    programs.push(Ast::Chain(asg));
+                }
+                // nested arguments: r(s(r(...(0))))
+                let mut nested = int(0);
+                for i in 0..n {
+                    let f = if Some(i) == fail_at { "typeof" } else if i % 2 == 0 { "r" } else { "s" };
+                    nested = Ast::Call(f.into(), Box::new(nested));
+                }
+                programs.push(nested);
+                for p in &programs {
+                    check_program(p, &ctxs[0], 0, &mut st);
+                    st.count("scaling-family-programs");
+                }
+            }
+        }
+        st
+    })
+}
+
 pub fn run(cfg: &Cfg) -> Report {
     let (n_hash, n_script2, n_script1) = cfg.tier.pick((3, 1, 2), (3, 2, 3));
     let counts = progs::counts(3);
@@ -369,6 +419,7 @@ pub fn run(cfg: &Cfg) -> Report {
             st
         }));
     }
+    stats.merge(scaling(cfg.tier == Tier::Thorough));
     for src in ["r (1) + typeof (2) + s (3)", "false && r (1)", "x = 1 ; ( r (x) , x += 1 , s (x) ) ; 1 / 0 ; r (9)"] {
         let log: Log = Arc::new(Mutex::new(Vec::new()));
         let mut c = real_context(&[], &log);
@@ -385,7 +436,7 @@ pub fn run(cfg: &Cfg) -> Report {
     Report {
         property: ID,
         level: "model_checking",
-        rule: format!("axis 1: every program with <= {n_hash} operator nodes over {{x = e, y = e, x += e, x &&= e, r(e), s(e), typeof(e) (a failing user function that shadows a total builtin), -e, e + (missing operand), e + e, e && e, e || e, e / e, (e, e), (e; e)}} and leaves {{1, 0, true, false, x, unbound u, 1/0, true+1}} x 3 initial contexts on the real HashMapContext with recording functions; axis 2: the same programs (<= {n_script2} operator nodes with <= 2 deviations, <= {n_script1} with <= 1) against a scripted Context whose i-th answer (get_value / call_function / set_value) deviates from the default as chosen by a deviation-bounded depth-first exploration; oracle: reference interpreter driven by the same script (result, final variables, ordered call log with arguments, ordered sequence of context interactions). States = (program, context) pairs explored on axis 2, transitions = scripted executions. Non-trivial = failing after effects, or >= 2 logged calls, or a deviating script; each (program, context, script) triple is enumerated exactly once, so the counter counts distinct cases"),
+        rule: format!("axis 1: every program with <= {n_hash} operator nodes over {{x = e, y = e, x += e, x &&= e, r(e), s(e), typeof(e) (a failing user function that shadows a total builtin), -e, e + (missing operand), e + e, e && e, e || e, e / e, (e, e), (e; e)}} and leaves {{1, 0, true, false, x, unbound u, 1/0, true+1}} x 3 initial contexts on the real HashMapContext with recording functions; axis 2: the same programs (<= {n_script2} operator nodes with <= 2 deviations, <= {n_script1} with <= 1) against a scripted Context whose i-th answer (get_value / call_function / set_value) deviates from the default as chosen by a deviation-bounded depth-first exploration; oracle: reference interpreter driven by the same script (result, final variables, ordered call log with arguments, ordered sequence of context interactions). Plus scaling families: chains, tuples, sums, op-assign sequences and nested arguments of n recording calls for every n in 1..20 and up to 129 (quick) / 1..40 and up to 400 (thorough) with the failing call at every position (chosen positions above 20). States = (program, context) pairs explored on axis 2, transitions = scripted executions. Non-trivial = failing after effects, or >= 2 logged calls, or a deviating script; each (program, context, script) triple is enumerated exactly once, so the counter counts distinct cases"),
         nontrivial_set: "counter:nontrivial-distinct",
         exhaustive: true,
         bound_completed: format!("programs of {n_hash} operator nodes; 2 deviations up to {n_script2} nodes, 1 deviation up to {n_script1}"),
@@ -424,6 +475,11 @@ pub fn replay(case: &J) -> i32 {
                 return super::replay_verdict(ID, &st);
             }
         }
+    }
+    // a scaling-family program: rebuild the AST from the real tree of the recorded source
+    if let Some(ast) = build_operator_tree::<DefaultNumericTypes>(src).ok().and_then(|t| super::selftest::node_to_ast(&t)) {
+        check_program(&ast, &ctxs[ci], ci, &mut st);
+        return super::replay_verdict(ID, &st);
     }
     machinery_error("C08 replay: program not in the enumerated domain")
 }
